@@ -64,8 +64,27 @@ sspec.cls('TBRMMScore', fields={'diag': TObj('TBRMMDiagnostics'),
 
 
 def SCORE(x, y, par, k):
-  srt = I if k < 4 else R
-  return uf('SCORE%d' % k, [x, y] + dg.par_terms(par), srt)
+  """k-th entry of the documented score tuple of the design with control
+  series x and treatment series y: (correlation test, A/A test, Brownian
+  bridge test, Durbin-Watson test, correlation rounded to two decimals,
+  1 / required impact), in terms of the diagnostics spec functions."""
+  no = z3.BoolVal(False)
+
+  def b2i(t):
+    return z3.If(t, z3.IntVal(1), z3.IntVal(0))
+  if k == 0:
+    return b2i(unwrap(dg.F_at('corr_test', no, x, y, par)).val.t)
+  if k == 1:
+    aa = unwrap(dg.F_at('aatest', no, x, y, par)).val
+    return b2i(aa.items[0].val.t)
+  if k == 2:
+    return b2i(unwrap(dg.F_at('bbtest', no, x, y, par)).val.items[0].t)
+  if k == 3:
+    return b2i(unwrap(dg.F_at('dwtest', no, x, y, par)).val.items[0].t)
+  if k == 4:
+    return uf('round', [unwrap(dg.F_at('corr', no, x, y, par)).val,
+                        VInt(2)], R)
+  return 1 / N(unwrap(dg.F_at('required_impact', no, x, y, par)).val)
 
 
 def score_is(tup, x, y, par):
@@ -91,14 +110,11 @@ sspec.contract(
     modifies=['self._score'] + ['self.diag.' + f for f in dg.CACHES],
     props=('C04', 'C03', 'C09'),
     requires=[
-        ('diag satisfies its invariant and has x',
-         lambda s: And(dg.inv(s.self.diag), Not(IsNone(s.self.diag._x)))),
-        ('at least 3 pre-test points remain for the A/A test (else the test '
-         'outcome is None and int(None) raises TypeError)', lambda s: Or(
-             Not(IsNone(s.self._score)),
-             LEN(arr(s.self.diag._y)) - N(s.self.diag._par.n_test) >= 3)),
-        ('correlation strictly between -1 and 1',
-         lambda s: dg.corr_in_range(s.self.diag)),
+        ('the score is cached, or it can be computed: the diagnostics hold a '
+         'control series, the correlation is strictly inside (-1, 1) and at '
+         'least 3 pre-test points remain for the A/A test (else its outcome '
+         'is None and int(None) raises TypeError)',
+         lambda s: comparable(s.self)),
     ],
     ensures=[
         ('cached score is returned, otherwise the score of the current '
@@ -171,6 +187,19 @@ def lex_lt(a, b):
   return res
 
 
+gspec.contract(
+    'TBRMMDesign.__lt__',
+    params={'other': TObj('TBRMMDesign')}, result=TBool(),
+    modifies=['self.score._score', 'other.score._score'] +
+    ['self.score.diag.' + f for f in dg.CACHES] +
+    ['other.score.diag.' + f for f in dg.CACHES],
+    props=('C03', 'C14'),
+    requires=[('both scores can be produced', lambda s: And(
+        comparable(s.self.score), comparable(s.other.score)))],
+    ensures=[('designs are ordered by the lexicographic order of their score '
+              'tuples', lambda s: Iff(s.result, lex_lt(
+                  SV(s.old.self.score), SV(s.old.other.score))))])
+
 sspec.contract(
     'TBRMMScore.__lt__',
     params={'other': TObj('TBRMMScore')}, result=TBool(),
@@ -190,6 +219,9 @@ sspec.contract(
             dg.inv(s.self.diag), dg.inv(s.other.diag))),
     ])
 
+SCORE_FUNCTIONS = ['TBRMMScore.__post_init__', 'TBRMMScore.score',
+                   'TBRMMScore.score.setter', 'TBRMMScore.__lt__']
+DESIGN_FUNCTIONS = ['TBRMMDesign.__post_init__', 'TBRMMDesign.__lt__']
 FUNCTIONS = list(dg.FUNCTIONS)
 LEMMAS = []
 # contracts used at call sites whose bodies are verified elsewhere / later
